@@ -603,9 +603,11 @@ func (fc *FnCtx) assume(st *State, c Term) {
 
 // addObligation records "live => goal" and then assumes goal.
 func (fc *FnCtx) addObligation(st *State, kind, name string, goal Term, pos token.Pos, descr string) {
-	if goal.S == "true" {
+	if goal.S == "true" && (kind == "safety" || kind == "nopanic") {
 		return
 	}
+	// (a contract clause that is trivially true on the current code is still an obligation: it is
+	// recorded in the baseline, so that a change which makes it non-trivial and false is a violation)
 	full := funcKey(fc.fn) + "#" + name
 	fc.oblNames[full]++
 	if c := fc.oblNames[full]; c > 1 {
